@@ -1,5 +1,5 @@
 import NimaVerif.Lemmas.Registry
-import NimaVerif.Model.ScopeFragment
+import NimaVerif.Lemmas.Scope
 import NimaVerif.Gen.Registry
 /-!
 # C10 — identifier resolution follows Nix lexical scoping or fails explicitly
@@ -225,15 +225,103 @@ theorem cex_inherit_loop :
   refine ⟨hi, fun _ => rfl, ?_⟩
   exact refutes wLoop [key "a"] 4 _ _ (fun n => hi (n + 3)) (fun _ => rfl) (by decide)
 
-/-! ### Non-vacuity: inside the fragment of `resolve_partial` the two sides agree on programs with
-the same name bound at three and more levels. -/
+/-! ## What is proved: inside the fragment the full statement holds
 
-/-- `let a = 1; in rec { a = 2; k = let a = 3; in { x = a; j = { a = 4; y = a; }; }; }` -/
-def wShadow3 : Expr :=
+`InFragment prog path` (Model/ScopeFragment.lean, decidable): the program is built from let layers
+(any number, around anything but a bare reference), `rec` and plain attribute sets, `inherit`
+clauses, references and literals — nested to ANY depth, the same name bound at any number of
+levels, reference chains and cycles included — and the path consists of keys. Excluded, each with
+its counterexample theorem above: `with` (`cex_with_let`, `cex_with_env_recursive`),
+`inherit (s) x` (`cex_inherit_loop`), lambdas / calls / parentheses on the route
+(`cex_formals_leak`, `cex_routes_drop_scopes`), let layers on an identifier
+(`cex_let_on_identifier`), and inside the fragment the two side conditions
+`recInheritKey` (`cex_inherit_in_rec_by_key`) and `letOnRecTop` (`cex_document_rec_duplicates_lets`). -/
+
+/-- Lookup, over environments of any depth: the code's walk over the scope chain (`resolveId`, any
+    store, any visited sets) and Nix's rule (innermost lexical binder wins, `inherit` designates the
+    enclosing scope, chains are followed, a revisited item is a cycle) name the same value or both
+    fail, whenever neither runs out of fuel. -/
+theorem lookup_follows_lexical_scoping (fi fL fR : Nat) (st : St) (E : Env) (name : Text)
+    (vis ivis : List Nat) (hE : EnvOK E)
+    (hi : (resolveId fi st name (flat E) vis ivis).1 ≠ .err .fuel)
+    (hs : specFollow fL fR E name vis ivis ≠ .fail .fuel) :
+    RelR (resolveId fi st name (flat E) vis ivis).1 (specFollow fL fR E name vis ivis) :=
+  lookup_agree fi fL fR st E name vis ivis hE hi hs
+
+/-- Bounded time, over environments of any depth: with more fuel than there are unvisited items in
+    the chain, `_resolve_identifier` does not run out of it — unbound names and cycles end in
+    `ResolutionError`, never in `RecursionError`. -/
+theorem lookup_bounded (f : Nat) (st : St) (E : Env) (name : Text) (vis ivis : List Nat)
+    (hE : EnvOK E) (hf : remE vis ivis E < f) :
+    (resolveId f st name (flat E) vis ivis).1 ≠ .err .fuel :=
+  resolveId_terminates f st E name vis ivis hE hf
+
+/-- … and so does the reference resolver (the spec is not vacuous on the fragment). -/
+theorem spec_settles_partial (prog : Expr) (path : List Step) (h : InFragment prog path = true) :
+    ∃ M, ∀ fs, M ≤ fs → Settled (specResolve fs prog path) :=
+  spec_settles prog path h
+
+/-- C10 inside the fragment, whole traversals, fuels independent: whenever the reference resolver
+    settles, the code — given fuel beyond a bound that depends on the input only — agrees with it. -/
+theorem resolve_partial_settled (prog : Expr) (path : List Step) (h : InFragment prog path = true) :
+    ∃ N, ∀ F fs, N ≤ F → Settled (specResolve fs prog path) →
+      agrees (implResolve F prog path) (specResolve fs prog path) = true :=
+  Scope.resolve_partial_settled prog path h
+
+/-- C10 inside the fragment, in the shape of `ResolveFull`. -/
+theorem resolve_partial (prog : Expr) (path : List Step) (h : InFragment prog path = true) :
+    ∃ N, ∀ k, agrees (implResolve (N + k) prog path) (specResolve (N + k) prog path) = true :=
+  resolve_partial_fuel prog path h
+
+/-- bounded time and explicit failure inside the fragment: beyond the bound the traversal never ends
+    in `RecursionError` -/
+theorem resolve_bounded_partial (prog : Expr) (path : List Step) (h : InFragment prog path = true) :
+    ∃ N, ∀ k, implResolve (N + k) prog path ≠ .fail .fuel ∧ implResolve (N + k) prog path ≠ .nav .fuel := by
+  obtain ⟨N, hN⟩ := resolve_partial prog path h
+  refine ⟨N, fun k => ⟨fun hk => ?_, fun hk => ?_⟩⟩
+  · have := hN k; rw [hk] at this; cases hs : specResolve (N + k) prog path <;> rw [hs] at this <;> cases this
+  · have := hN k; rw [hk] at this; cases hs : specResolve (N + k) prog path <;> rw [hs] at this <;> cases this
+
+/-! ### Non-vacuity: the hypothesis of `resolve_partial` holds of programs with the same name bound
+at three and more levels, through let layers, rec and plain sets and inherit clauses. -/
+
+/-- `let a = 1; in { k = rec { a = 2; j = let a = 3; in { x = a; m = { a = 4; y = a; }; };
+     z = a; i = { inherit a; }; }; }` -/
+def wShadow : Expr :=
   .letE [.bind 10 (nm "a") (.lit 1)]
-    (.set 20 true [.bind 21 (nm "a") (.lit 2),
-      .bind 22 (nm "k") (.letE [.bind 23 (nm "a") (.lit 3)]
-        (.set 30 false [.bind 31 (nm "x") (.ref 32 (nm "a")),
-          .bind 33 (nm "j") (.set 40 false [.bind 41 (nm "a") (.lit 4), .bind 42 (nm "y") (.ref 43 (nm "a"))])]))])
+    (.set 20 false [.bind 21 (nm "k")
+      (.set 30 true [
+        .bind 31 (nm "a") (.lit 2),
+        .bind 32 (nm "j") (.letE [.bind 33 (nm "a") (.lit 3)]
+          (.set 40 false [
+            .bind 41 (nm "x") (.ref 42 (nm "a")),
+            .bind 43 (nm "m") (.set 50 false [.bind 51 (nm "a") (.lit 4), .bind 52 (nm "y") (.ref 53 (nm "a"))])])),
+        .bind 34 (nm "z") (.ref 35 (nm "a")),
+        .bind 36 (nm "i") (.set 60 false [.inh 61 [nm "a"]])])])
+
+example : InFragment wShadow [key "k", key "j", key "x"] = true := by decide
+example : InFragment wShadow [key "k", key "j", key "m", key "y"] = true := by decide
+example : InFragment wShadow [key "k", key "z"] = true := by decide
+example : InFragment wShadow [key "k", key "i", key "a"] = true := by decide
+
+/-- innermost let wins over rec set over outer let; a plain set binds nothing; `inherit` in a plain
+    set designates the enclosing (rec) scope — on both sides -/
+theorem shadowing_examples :
+    (∀ n, implResolve (n + 9) wShadow [key "k", key "j", key "x"] = .bound 3 ∧
+          specResolve (n + 9) wShadow [key "k", key "j", key "x"] = .bound 3) ∧
+    (∀ n, implResolve (n + 9) wShadow [key "k", key "j", key "m", key "y"] = .bound 3 ∧
+          specResolve (n + 9) wShadow [key "k", key "j", key "m", key "y"] = .bound 3) ∧
+    (∀ n, implResolve (n + 9) wShadow [key "k", key "z"] = .bound 2 ∧
+          specResolve (n + 9) wShadow [key "k", key "z"] = .bound 2) ∧
+    (∀ n, implResolve (n + 9) wShadow [key "k", key "i", key "a"] = .bound 2 ∧
+          specResolve (n + 9) wShadow [key "k", key "i", key "a"] = .bound 2) :=
+  ⟨fun _ => ⟨rfl, rfl⟩, fun _ => ⟨rfl, rfl⟩, fun _ => ⟨rfl, rfl⟩, fun _ => ⟨rfl, rfl⟩⟩
+
+/-- the exclusions are real: each witness of a `cex_*` theorem is outside the fragment -/
+theorem witnesses_outside_fragment :
+    InFragment wWithLet [key "x"] = false ∧ InFragment wWithEnvRec [key "x"] = false ∧
+    InFragment wLetOnIdent [key "x"] = false ∧ InFragment wInhRecKey [key "c"] = false ∧
+    InFragment wFormalsLeak [key "x"] = false ∧ InFragment wDocRecDup [key "k", key "x"] = false ∧
+    InFragment wLambdaRoute [key "x"] = false ∧ InFragment wLoop [key "a"] = false := by decide
 
 end Nima.C10
